@@ -46,7 +46,7 @@ def run(ctx):
     # identity corner cases, forced: a path whose file is replaced between two runs of one group so that exactly one component of
     # (device, inode, mtime) - the inode - or only the mtime differs, with the size unchanged
     for kind in ("renamed-over", "same-size-rewrite", "same-second-rewrite"):
-        if ctx.violations:
+        if ctx.has_failing_input():
             break
         with slevel.Sandbox("c01") as sb:
             H = runs.History(ctx, sb, rng, "C01", 3, 4, identity_changes=True)
@@ -69,7 +69,7 @@ def run(ctx):
             H.report_diffs("backup-restore")
     # archives much larger than the decompressor's block (128 KiB): hundreds of files of 1..4096 bytes (the restorer buffers those) and a few
     # larger ones, so that file data straddles block boundaries at many offsets
-    if not ctx.violations:
+    if not ctx.has_failing_input():
         with slevel.Sandbox("c01") as sb:
             H = runs.History(ctx, sb, rng, "C01", 3, 4, identity_changes=True)
             top = os.path.join(H.w.src, H.w.items[0])
